@@ -280,6 +280,57 @@ def object_level(cls: str, twin: bool = False, real: bool = False):
     return check_object, {"greeted": cls != "anything-before-greeting", "v": 0, "k": 1, "n": 0}
 
 
+def replayed_block(lo: int, hi: int, twin: bool = False, real: bool = False):
+    """Replay of valid traffic with one corrupted byte: the bytes of a block the node already has (the sibling fork's tip),
+    one byte replaced by a symbolic value, delivered as a data message. Nothing may change: the node either recognises the
+    block it has, or refuses the bytes."""
+    W = World(real=real, networking=True, served_head="P", lro=True)
+    from symlib import nodeshell as ns
+    import skepticoin.networking.remote_peer as rpm
+    import skepticoin.serialization as ser
+    if not real:
+        from symlib.stubs.pyio import PyBytesIO
+        rpm.BytesIO = PyBytesIO
+        ser.BytesIO = PyBytesIO
+    else:
+        import io
+        rpm.BytesIO = io.BytesIO
+        ser.BytesIO = io.BytesIO
+
+    def check_replayed(pos: int, v: int) -> bool:
+        """
+        post: _
+        """
+        if not (lo <= pos < hi and 0 <= v <= 255):
+            return True
+        lp, bad, others, pv = _setup(W, ns, True)
+        cm = lp.chain_manager
+        # the block the node already has: its current head, one above the checkpoint horizon (fully validated when it came in);
+        # all ids are derived from the bytes (no preset ids), so decoding the same bytes gives the same ids
+        cb = W.env.coinbase(W.h, [W.dt.Output(1, W.keys[3])], None, data=b"k")
+        known = W.candidate(cm.coinstate, [cb], 3000, bid=None, nonce=2)
+        cm.coinstate = cm.coinstate.add_block(known, 3000)
+        cm.last_known_valid_coinstate = cm.coinstate
+        enc = known.serialize()
+        if pos >= len(enc):
+            return True
+        body = enc[:pos] + bytes([v]) + enc[pos + 1:]
+        payload = HDR + TYPES["data"] + b"\x00" + b"\x00\x00" + body
+        stream = b"MAJI" + struct.pack(">I", len(payload)) + payload
+        before = _snapshot(lp, others)
+        nblocks = len(lp.chain_manager.coinstate.block_by_hash)
+        escaped = _deliver(lp, ns, bad, stream)
+        if twin:
+            return not bad.sock.closed
+        if escaped is not None:
+            return False
+        if not _same(before, _snapshot(lp, others)):
+            return False
+        return len(lp.chain_manager.coinstate.block_by_hash) == nblocks
+
+    return check_replayed, {"pos": lo, "v": 1}
+
+
 CLASSES = ["anything-before-greeting", "unknown-data-type", "get-data-for-transaction", "header-data", "orphan-block",
            "block-failing-by-itself", "block-whose-validation-hits-an-internal-error", "transaction-failing-a-rule", "over-limit-inventory"]
 
@@ -300,6 +351,11 @@ def obligations(tier: str, known: List[str]) -> List[Ob]:
         obs.append(Ob("bytes[symbolic-%s]" % sym, C_1 + "; " + C_2 + "; " + C_3, "bytes_level",
                       {"mtype": "get_peers", "L": 1, "greeted": True, "sym": sym}, timeout=T))
     obs.append(twin_of([o for o in obs if o.name == "bytes[type=data,body=3,greeted=True]"][0], timeout=300))
+    # replay of a known block with one corrupted byte (bytes level, full-size message)
+    for lo in (list(range(0, 328, 8)) if thorough else [0, 104, 200, 208]):
+        obs.append(Ob("bytes[replayed-known-block,corrupted byte %d-%d]" % (lo, lo + 7), C_2 + "; " + C_3, "replayed_block",
+                      {"lo": lo, "hi": lo + 8}, timeout=T))
+    obs.append(twin_of([o for o in obs if o.name.startswith("bytes[replayed-known-block,corrupted byte 0-7")][0], timeout=300))
     for c in CLASSES:
         obs.append(Ob("object[%s]" % c, C_1 + "; " + C_2 + "; " + C_3, "object_level", {"cls": c}, timeout=T))
     obs.append(twin_of([o for o in obs if o.name == "object[transaction-failing-a-rule]"][0], timeout=300))
